@@ -243,8 +243,17 @@ func C06geom(p *load.Program, run *report.Run) {
 		sa, ra := adv(fs), adv(fr)
 		rInit, rBound := minInit(fr, ra)
 		okAdv := rInit == "chunkRows" && rBound != ""
+		// the width variable's own definition (byteRows := len(chunk) / K) written out in the advance
+		sWidthDef := ""
+		ast.Inspect(fs.Body, func(nd ast.Node) bool {
+			if as, ok := nd.(*ast.AssignStmt); ok && as.Tok == token.DEFINE && len(as.Lhs) == 1 && len(as.Rhs) == 1 && types.ExprString(as.Lhs[0]) == sWidth {
+				sWidthDef = types.ExprString(as.Rhs[0])
+			}
+			return true
+		})
 		switch {
 		case sa == sWidth+" * 8":
+		case sWidthDef != "" && sa == sWidthDef+" * 8":
 		default:
 			i, b := minInit(fs, sa)
 			// rows := byteRows*8; maxRows := rows; if maxRows > n-ofs {...}
